@@ -24,7 +24,13 @@ var (
 	Gadget  = &sim.Kind{Group: "apps.ex", Version: "v1", Resource: "gadgets", Kind: "Gadget", Namespaced: true, StatusSub: true}
 	// ThingBeta: the parent kind is served in a second, older version as well (same storage; listed FIRST in discovery)
 	ThingBeta = &sim.Kind{Group: "ex.io", Version: "v1beta1", Resource: "things", Kind: "Thing", Namespaced: true, StatusSub: true}
-	Kinds     = []*sim.Kind{ThingBeta, Thing, NoThing, CThing, Leaf, Widget, CWidget, Other, Gadget}
+	// NoThingBeta: the older served version of nothings DOES have a status subresource (per-version subresources)
+	NoThingBeta = &sim.Kind{Group: "ex.io", Version: "v1beta1", Resource: "nothings", Kind: "NoThing", Namespaced: true, StatusSub: true}
+	// Dual1 / Dual2: one resource served in two versions whose objects are kept apart (a deliberately conservative
+	// model of conversion: mixing the two versions up is then visible as "the wrong objects"). Not in Kinds; used by C18.
+	Dual1 = &sim.Kind{Group: "dual.ex", Version: "v1", Resource: "duals", Kind: "Dual", Namespaced: true, StoreKey: "dual.ex|duals@v1"}
+	Dual2 = &sim.Kind{Group: "dual.ex", Version: "v2", Resource: "duals", Kind: "Dual", Namespaced: true, StoreKey: "dual.ex|duals@v2"}
+	Kinds = []*sim.Kind{ThingBeta, NoThingBeta, Thing, NoThing, CThing, Leaf, Widget, CWidget, Other, Gadget}
 )
 
 const LastApplied = "metacontroller.k8s.io/last-applied-configuration"
